@@ -1,5 +1,6 @@
 import SafeNet.Proofs.MsgPack
 import SafeNet.Model.Wire
+import SafeNet.Gen.WireShape
 /-!
 Helper lemmas for C12: the serde-tree embedding produces well-formed MessagePack values, and the type-directed
 reader `ofVal` inverts `toVal` on every value of every (well-formed) schema.
@@ -348,5 +349,40 @@ theorem tryDeserialize_window (b0 b1 b2 : Nat) :
       · have : b1 ≠ 0 := fun e => h81 ⟨c2, e⟩
         simp [c2, this]
       · simp [c2]
+
+/-! ## tie of the hand-written schemas to the source's type definitions (`Gen.WireShape`) -/
+
+section Shapes
+open SafeNet.Gen.WireShape
+
+/-- does a schema payload have the shape serde derives for the variant? -/
+def shapeOk : VShape → Schema → Bool
+  | .unit, .absent => true
+  | .unit, _ => false
+  | .newtype, .absent => false
+  | .newtype, _ => true
+  | .fields names, .tup ss => ss.length == names.length
+  | .fields _, _ => false
+
+/-- the schema describes exactly the variants of the source enum (by name, any order), each with the derived shape -/
+def enumTied (gen : List (String × VShape)) : Schema → Bool
+  | .enum vs =>
+    gen.length == vs.length &&
+    gen.all (fun g => match vs.find? (fun v => v.1 == nm g.1) with
+      | some v => shapeOk g.2 v.2
+      | none => false) &&
+    (gen.map (·.1)).eraseDups.length == gen.length
+  | _ => false
+
+/-- the schema has one position per field of the source struct -/
+def structTied (gen : List String) : Schema → Bool
+  | .tup ss => ss.length == gen.length
+  | _ => false
+
+/-- same variants (as a set) -/
+def sameVariants (a b : List (String × VShape)) : Bool :=
+  a.length == b.length && a.all (b.contains ·) && b.all (a.contains ·)
+
+end Shapes
 
 end SafeNet.Wire
